@@ -252,7 +252,7 @@ func ruleSizeAccounting(c *Ctx) {
 		}
 		return call, res
 	}
-	cl := &AffClient{Fields: []*types.Var{v.aofsz}, Ghosts: []string{"S", "L0", "P", "F"}}
+	cl := &AffClient{Fields: []*types.Var{v.aofsz}, Ghosts: []string{"S", "L0", "P", "F", "K"}}
 	// redcon.ReadNextCommand: complete == false implies leftover == packet (nothing consumed; package
 	// contract, every `return false, ...` of the three readers returns the packet it was given). Ghost L0
 	// holds len(packet) before the call; on the !complete edge len(leftover) == L0.
@@ -282,6 +282,8 @@ func ruleSizeAccounting(c *Ctx) {
 	// positioned the file where aofsz says); F = the size of the file (unknown until end-of-file is seen).
 	cl.Init = func(a *Aff, st *affSpace) *affSpace {
 		st = st.assume(a.VarForm(a.Ghost("S")).add(a.VarForm(a.fidx[v.aofsz]), -1))
+		// K = entry offset + bytes consumed (by the parser, or skipped one by one): starts at the entry offset
+		st = st.assume(a.VarForm(a.Ghost("K")).add(a.VarForm(a.Ghost("S")), -1))
 		return st.assume(a.VarForm(a.Ghost("P")).add(a.VarForm(a.Ghost("S")), -1))
 	}
 	aofMethod := func(n ast.Node, name string) (*ast.CallExpr, ast.Expr) {
@@ -311,6 +313,26 @@ func ruleSizeAccounting(c *Ctx) {
 	}
 	cl.After = func(a *Aff, n ast.Node, st *affSpace) *affSpace {
 		s, pg, fgh := a.Ghost("S"), a.Ghost("P"), a.Ghost("F")
+		// consumption: the parser takes len(before) - len(leftover) bytes; `data = data[k:]` takes k
+		if kg := a.Ghost("K"); leftoverObj != nil {
+			if li, ok := a.idx[leftoverObj]; ok {
+				if parseAs != nil && n == ast.Node(parseAs) {
+					return st.assignMany(map[int]*affForm{kg: a.VarForm(kg).add(a.VarForm(a.Ghost("L0")), 1).add(a.VarForm(li), -1)})
+				}
+				if as, ok := n.(*ast.AssignStmt); ok && as.Tok == token.ASSIGN && len(as.Lhs) == 1 && len(as.Rhs) == 1 {
+					if id, ok := ast.Unparen(as.Lhs[0]).(*ast.Ident); ok && info.ObjectOf(id) == leftoverObj {
+						if sl, ok := ast.Unparen(as.Rhs[0]).(*ast.SliceExpr); ok && sl.High == nil && sl.Low != nil {
+							if xid, ok := ast.Unparen(sl.X).(*ast.Ident); ok && info.ObjectOf(xid) == leftoverObj {
+								if f, ok := a.Form(sl.Low); ok {
+									return st.assignMany(map[int]*affForm{kg: a.VarForm(kg).add(f, 1)})
+								}
+								return st.assignMany(map[int]*affForm{kg: nil})
+							}
+						}
+					}
+				}
+			}
+		}
 		if call, res := isRead(n); call != nil {
 			if res != nil {
 				if f, ok := a.Form(res); ok {
@@ -504,6 +526,23 @@ func ruleSizeAccounting(c *Ctx) {
 		st := a.At(r)
 		if os.Getenv("AFFDBG") != "" {
 			fmt.Fprintln(os.Stderr, "AFFDBG return", a.Dump(st))
+		}
+		for _, ob := range []struct {
+			key, what, bad string
+			f              *affForm
+		}{
+			{"aofsz-at-return", "aofsz", "the server's idea of the log size (used for follower positions, checksums and the next shrink) is wrong after start-up", a.VarForm(a.fidx[v.aofsz])},
+			{"file-size-at-return", "the size of the log file", "the log is cut at an offset that is not the end of the last complete command (applied commands are cut off, or part of the torn tail stays in the file), or a torn tail is not cut at all", a.VarForm(a.Ghost("F"))},
+			{"write-offset-at-return", "the file offset of the log", "after the repair the write offset is not the new end of the file: the next append leaves a hole of zero bytes or overwrites the tail of the good log", a.VarForm(a.Ghost("P"))},
+		} {
+			_ = ob
+		}
+		// every byte that was read and counted is either consumed or still in the carry: the cut is at the end
+		// of the last consumed command
+		if st.bottom || st.holds(a.VarForm(a.fidx[v.aofsz]).add(a.VarForm(a.Ghost("K")), -1)) {
+			c.ok("cut-at-consumed"+suffix, rs.Pos(), true, "on normal return aofsz = entry offset + bytes consumed by the parser and the NUL skip (affine invariant): nothing that was read is dropped between the read and the parser")
+		} else {
+			c.bad("cut-at-consumed"+suffix, rs.Pos(), "on a normal return of loadAOF aofsz is not (entry offset + bytes consumed) on every path: bytes that were read and counted are neither parsed nor kept in %s, so the log is cut at an offset that is not the end of the last applied command and the start of the torn command stays in the file", carry.Name())
 		}
 		for _, ob := range []struct {
 			key, what, bad string
